@@ -382,6 +382,24 @@ class Effects:
                     out.add((root.id, first.attr if isinstance(first, ast.Attribute) else "*"))
         return out
 
+    def site_writes_of(self, cs: CallSite, g: Func) -> set[tuple[str, str]]:
+        """Like site_writes, for one callee of the site."""
+        out: set[tuple[str, str]] = set()
+        for (pname, fld) in self.writes.get(g, ()):
+            arg = self.arg_for_param(cs, g, pname)
+            if arg is None:
+                continue
+            path = access_path(arg)
+            root = path[-1]
+            if not isinstance(root, ast.Name):
+                continue
+            if len(path) == 1:
+                out.add((root.id, fld))
+            else:
+                first = path[-2]
+                out.add((root.id, first.attr if isinstance(first, ast.Attribute) else "*"))
+        return out
+
     def call_kills(self, f: Func):
         """Call transfer function for the facts analysis of `f`: access paths a call may write."""
         def kills(c: ast.Call) -> Iterable[str]:
